@@ -173,6 +173,12 @@ def require_ok(res: TlcResult, what=""):
 
 
 def require_covered(res: TlcResult, actions):
-    missing = [a for a in actions if not any(res.coverage.get(x, (0, 0))[1] > 0 for x in a.split("|"))]
+    def alts(a):
+        out = []
+        for x in a.split("|"):
+            out += [x, "Do" + x]
+        return out
+
+    missing = [a for a in actions if not any(res.coverage.get(x, (0, 0))[1] > 0 for x in alts(a))]
     if missing:
         raise Machinery(f"vacuous: actions never taken in {res.spec}: {missing}")
